@@ -607,6 +607,8 @@ async def run_pair(corr: Corr, ctx, rng, label: str, old_spec, new_spec, must: l
             with open(crash_path, "wb") as f:
                 f.write(content)
         obs = await real_load(crash_path)
+        if ctx.model_ok and content is not None:
+            TEXT_LINES.append((content, obs, {"pair": label, "crash": lab}))
         ok = obs in want
         kind = lab["kind"] if lab["kind"] != "write" else ("write:0" if lab["bytes"] == 0 else "write:full" if lab["bytes"] == lab["of"] else "write:torn")
         corr.count("state:" + kind)
@@ -636,12 +638,61 @@ async def run_pair(corr: Corr, ctx, rng, label: str, old_spec, new_spec, must: l
         os.unlink(live)
 
 
+TEXT_LINES: list = []      # (content of a materialised crash state, what the real load made of it, case)
+
+
+def obs_of_model(line: str):
+    """DriverPersist's `bload` outcome in the shape of `real_load`'s observation (registries order-insensitive)."""
+    from . import persist
+    line = line.split(" created=")[0]
+    if line.startswith("ok "):
+        return ("ok", persist.parse_reg(line[3:]))
+    if line.startswith("err persistenceRead"):
+        return ("readerror",)
+    return tuple(line.split(" "))
+
+
+def obs_comparable(obs):
+    from . import persist
+    if obs[0] != "ok":
+        return obs
+    reg = {}
+    for k, n in json.loads(obs[1]).items():
+        children = {int(ck): (c["child_id"], c["child_type"], persist.enc(c["description"]), {int(t): persist.enc(v) for t, v in c["values"].items()})
+                    for ck, c in n["children"].items()}
+        reg[int(k)] = ((str(n["node_type"]), persist.enc(n["protocol_version"]), persist.enc(n["sketch_name"]), persist.enc(n["sketch_version"]),
+                        str(n["battery_level"]), str(n["heartbeat"]), "0", persist.B(n["sleeping"])), children)
+    return ("ok", reg)
+
+
+def check_crash_loads(corr: Corr) -> None:
+    """Every materialised crash state through the MODELLED loader (C15.realLoad = UTF-8 decoding, JsonText.parse,
+    the schema load; driver `bload`): same outcome as the real Persistence.load had on the real file."""
+    lines, seen = ["rnew"], {}
+    for content, obs, case in TEXT_LINES:
+        if content not in seen:
+            seen[content] = len(lines)
+            lines.append("bload " + hexb(content))
+    outs = lib.run_model(lines, driver="DriverPersist.lean")
+    for content, obs, case in TEXT_LINES:
+        out = outs[seen[content]]
+        if out == "unsupported":
+            corr.count("model load: outside the modelled text fragment")
+            continue
+        corr.count("model load: " + out.split(" ")[0])
+        if obs_of_model(out) != obs_comparable(obs):
+            corr.disagree("load of a crash state: real Persistence.load vs the modelled loader (decode, parse, schema)",
+                          {**case, "content": content[:300].decode("utf-8", "replace"), "impl": list(obs)[:1] + [str(obs[1:])[:300]], "model": out[:300]})
+
+
 def run_c15(ctx) -> Corr:
     corr = Corr("C15", "pairs (old registry, new registry) over {no file, empty, one node, several nodes with children/values, "
                 "non-ASCII, random}; for each pair the real save runs under an instrumented opener (sync_open, os.replace/"
                 "rename/remove/truncate logged), its operation sequence and crash states are compared with the Lean model "
                 "(saveOps/crashStates), and every crash state (thorough: every byte prefix; quick: >= 40 prefixes incl. 0, 1, "
-                "len-1) is materialised as a real file and loaded by the real Persistence.load; one case = one crash state; "
+                "len-1) is materialised as a real file and loaded by the real Persistence.load, and its content is also loaded by "
+                "the modelled loader of C15.realLoader (UTF-8 decoding, JsonText.parse, schema load; driver bload) with the same "
+                "outcome required; one case = one crash state; "
                 "non-trivial = the crash is strictly inside the operation sequence")
     rng = lib.rng_for(ctx.seed, "c15")
     kinds = {"empty": [], "one": ONE, "several": SEVERAL, "nonascii": NONASCII}
@@ -674,8 +725,11 @@ def run_c15(ctx) -> Corr:
         for label, old, new, sess in sessions:
             await run_pair(corr, ctx, rng, label, old, new, [], model_lines, session=sess)
 
+    TEXT_LINES.clear()
     asyncio.run(main())
 
+    if ctx.model_ok and TEXT_LINES:
+        check_crash_loads(corr)
     if ctx.model_ok and model_lines:
         outs = lib.run_model([m[0] for m in model_lines], driver=DRIVER)
         for (line, what, impl, case), out in zip(model_lines, outs):
